@@ -362,7 +362,7 @@ func runExecutorCase(rt *rapid.T, rec *simkit.Recorder, backend string, newRig f
 	initial := drawInputRoot(rt, &rc)
 	dropSpecials(initial)
 	sc.Initial = initial.render()
-	exitCode := rapid.SampledFrom([]int{0, 0, 0, 1, 137}).Draw(rt, "exit_code")
+	exitCode := rapid.SampledFrom([]int{0, 0, 0, 1, 137, 255, 256, 512, 0x7fffff00, -1}).Draw(rt, "exit_code")
 	// Both streams from {empty, one line, two lines}; the pools are disjoint
 	// so that swapped digests cannot go unnoticed.
 	stdout := rapid.SampledFrom(stdoutPool).Draw(rt, "stdout")
